@@ -50,6 +50,7 @@ namespace bxdecay0 {
                               const double thlev_,
                               double & tdlev_)
   {
+    BXDECAY0_VERIF_SCOPE("nucltransKLM_Pb", Egamma_, EbindeK_, conveK_, EbindeL_, conveL_, EbindeM_, conveM_, convp_, tclev_, thlev_);
     static double emass = decay0_emass();
     double p            = (1. + conveK_ + conveL_ + conveM_ + convp_) * prng_();
     if (p <= 1.) {
